@@ -3,6 +3,7 @@ C09 — Range formatting touches only statements inside the range.
 Property theorems and non-vacuity examples only; helper lemmas are in Lemmas/Block.lean.
 -/
 import StyluaModel.Lemmas.Block
+import StyluaModel.Model.Eof
 
 namespace StyluaModel.C09
 open StyluaModel.Block StyluaModel.BlockLemmas
@@ -70,6 +71,10 @@ theorem C09_only_first_stripped (r : Option Range) (d : Bool) (ss : List Stmt) :
 theorem C09_first_stripped_iff (r : Option Range) (s : Stmt) (rest : List Stmt) :
     ((fmtBlock repaired r (s :: rest)).head?.map (·.stripped)) = some (decide (decide1 (toggle false s.lines) r s = .normal)) := by
   simp [fmtBlock, fmtStmts, outOf, repaired]
+
+/-- **the end of the file outside the range is left alone**: blank lines, indentation and comments
+after the last statement come back untouched -/
+theorem C09_eof_untouched (eol : List Char) (lead : List Trivia.Triv) : Eof.fmtEof eol false lead = none := rfl
 
 /-! ## non-vacuity -/
 example :
